@@ -51,7 +51,11 @@ let parse_l (tok : string) : n list =
   List.map (fun x -> n_of_int (int_of_string x)) (split_on ',' body)
 (* "B<hex>" = the bytes; "P<len>:<hex>" = the pattern repeated / truncated to <len> bytes (compact form for
    large periodic inputs; an empty pattern stands for a zero byte) *)
-let parse_b (tok : string) : n list =
+let rec parse_b (tok : string) : n list =
+  if String.contains tok '+' then
+    (* several segments joined by '+': concatenation *)
+    List.concat_map parse_b (String.split_on_char '+' tok)
+  else
   let hexbytes body =
     let len = String.length body / 2 in
     Array.init len (fun i -> int_of_string ("0x" ^ String.sub body (2 * i) 2)) in
